@@ -3,7 +3,8 @@ reference server (ref_family). Both parts run; coverage is merged, any violation
 from vf import *
 import server_family, ref_family, lifecycle_family
 
-PARTS = {"C06": (server_family, ref_family), "C07": (server_family, ref_family), "C20": (server_family, lifecycle_family), "C14": (ref_family, lifecycle_family)}
+PARTS = {"C06": (server_family, ref_family), "C07": (server_family, ref_family), "C20": (server_family, lifecycle_family), "C14": (ref_family, lifecycle_family),
+         "C19": (server_family, ref_family)}
 
 
 def merge(a, b):
